@@ -741,6 +741,7 @@ class Connection:
         self.uncommitted_writes = 0  # elementary row writes since the last commit
         self.max_uncommitted = 0
         self.commit_points = []  # index into self.log at each commit
+        self.write_log = []  # index into self.log of each elementary write
         self.closed = False
         self.total_changes = 0
 
@@ -826,9 +827,9 @@ class Connection:
         return {k: t.copy() for k, t in self.committed.items()}
 
     def _wrote(self, n=1):
-        self.uncommitted_writes += n
+        self.uncommitted_writes = self.uncommitted_writes + n  # may be a z3 term (symbolic pre-state)
         self.total_changes += n
-        self.max_uncommitted = max(self.max_uncommitted, self.uncommitted_writes)
+        self.write_log.append(len(self.log))
         if self.isolation_level is None:
             self._commit()
         else:
